@@ -278,13 +278,17 @@ def addBound (k : BoundKind) (d : DData) (bound : Int) : Option DData :=
 
 /-! ### concretisation under an identifier valuation -/
 
+/-- the three ways a `w`-bit value with signed reading `t` can be represented -/
+def MemI (ρ : Nat → Int) (d : DData) (w : Nat) (t : Int) : Prop :=
+  d.top = true ∨
+  (∃ a, d.abs = some a ∧ a.Mem t) ∨
+  (∃ i o x, (i, o) ∈ d.rel ∧ o.Mem x ∧ t = wrap w (ρ i + x))
+
 /-- **γρ** (declarative): `v ∈ γρ d`. `ρ i` is the concrete base value identifier `i` stands for (read
-modulo `2^w`). -/
+modulo `2^w`): `v` has the size of `d` and the top flag is set, or `v` is a member of the absolute
+interval, or `v = ρ i + x` (wrapping) for a relative target `(i, o)` and an offset `x ∈ γ o`. -/
 def Mem (ρ : Nat → Int) (d : DData) (v : Bv) : Prop :=
-  v.w = 8 * d.size ∧
-  (d.top = true ∨
-   (∃ a, d.abs = some a ∧ a.Mem v.toInt) ∨
-   (∃ i o x, (i, o) ∈ d.rel ∧ o.Mem x ∧ v.toInt = wrap v.w (ρ i + x)))
+  v.w = 8 * d.size ∧ MemI ρ d v.w v.toInt
 
 /-- executable γρ-membership (equal to `Mem` for well-formed values: `contains_iff`) -/
 def contains (ρ : Nat → Int) (d : DData) (v : Bv) : Bool :=
